@@ -6,7 +6,7 @@ import signal
 from . import build, core
 
 SAN_ENV = {
-    "ASAN_OPTIONS": "detect_leaks=0:exitcode=99:abort_on_error=0:allocator_may_return_null=1:symbolize=1:fast_unwind_on_malloc=1:malloc_context_size=5",
+    "ASAN_OPTIONS": "detect_leaks=0:exitcode=99:abort_on_error=0:allocator_may_return_null=1:symbolize=1:fast_unwind_on_malloc=1:malloc_context_size=5:handle_abort=1",
     "UBSAN_OPTIONS": "print_stacktrace=1:halt_on_error=1:exitcode=98",
     "ASAN_SYMBOLIZER_PATH": "/usr/bin/llvm-symbolizer",
 }
@@ -32,6 +32,8 @@ def classify(rc, err):
     if rc == 99 or "ERROR: AddressSanitizer" in err:
         m = re.search(r"AddressSanitizer: ([\w-]+)", err)
         outcome = "asan:" + (m.group(1) if m else "error")
+        if outcome == "asan:ABRT":
+            outcome = "abort"          # handle_abort=1 only serves to get the stack of an abort()
     elif rc == 98 or "runtime error:" in err:
         outcome = "ubsan"
     elif isinstance(rc, int) and rc < 0:
@@ -49,6 +51,9 @@ def classify(rc, err):
     if outcome is None:
         return None
     site, owner = "unknown", "unknown"
+    if outcome == "asan:stack-overflow":
+        # unbounded recursion: the innermost frame is arbitrary, so it cannot identify the site
+        return (outcome, "unbounded-recursion", "libabigail")
     m = _notreached_re.search(err)
     if outcome == "abort" and m:
         return (outcome, "notreached:" + m.group(1), "libabigail")
@@ -147,6 +152,9 @@ _servers = {}
 def server(ctx, variant, name):
     key = (os.getpid(), variant, name)
     s = _servers.get(key)
+    if s is not None and s.count >= 10 ** 9:
+        s.close()              # it announced that it exits after its last reply
+        s = None
     if s is None or s.p.poll() is not None:
         s = ToolServer(ctx, variant, name)
         _servers[key] = s
@@ -191,6 +199,7 @@ def run_tool(ctx, variant, name, args, timeout=30, stdin=None, env_extra=None, c
             if r[0] == "timeout":
                 raise ServerDied()      # repeat in a forked copy with the longer limit
             if STATS["inproc"] % 64 == 1:
+                s = server(ctx, variant, name)
                 r2 = s.request(args, timeout=timeout, stdin=stdin)
                 STATS["crosschecked"] += 1
                 if r2 != r:
